@@ -396,6 +396,9 @@ func (w *World) BuildReq(e Event) Req {
 			form["recovery_code"] = w.rcString(e.G, e.Rc, e.Junk)
 		} else {
 			form["code"] = w.totpCode(e.Tok, e.Code, e.Junk)
+			if e.Junk == "space" && e.Code >= 1 {
+				form["code"] += " " // the same code, typed with a trailing blank
+			}
 		}
 	case "SmsSetup":
 		rq.Path = "/auth/2fa/sms/setup"
